@@ -1084,6 +1084,24 @@ def rule_i(ctx: Context, R: Reporter):
                 ks = _keys_of_store(fi, x.slice)
                 if ks is None or ks & exported:
                     bad.append((x, sorted(ks & exported) if ks else "a computed key"))
+            # stores *inside* an exported section: payload["_history"][key] = ..., payload["_current"]["u"][...] = ...
+            if isinstance(x, ast.Subscript) and isinstance(x.ctx, (ast.Store, ast.Del)) and isinstance(x.value, ast.Subscript):
+                b = x.value
+                while isinstance(b.value, ast.Subscript):
+                    b = b.value
+                if isinstance(b.value, ast.Name) and b.value.id == var:
+                    ks = _keys_of_store(fi, b.slice)
+                    if ks is None or ks & exported:
+                        bad.append((x, f"an entry of section {sorted(ks & exported) if ks else '(computed)'}"))
+            if isinstance(x, ast.Call) and isinstance(x.func, ast.Attribute) and x.func.attr in ("pop", "update", "clear", "popitem", "setdefault", "append", "extend", "insert", "sort") \
+                    and isinstance(x.func.value, ast.Subscript):
+                b = x.func.value
+                while isinstance(b.value, ast.Subscript):
+                    b = b.value
+                if isinstance(b.value, ast.Name) and b.value.id == var:
+                    ks = _keys_of_store(fi, b.slice)
+                    if ks is None or ks & exported:
+                        bad.append((x, f"section {sorted(ks & exported) if ks else '(computed)'} through .{x.func.attr}()"))
             if isinstance(x, ast.Call) and isinstance(x.func, ast.Attribute) and isinstance(x.func.value, ast.Name) and x.func.value.id == var and x.func.attr in ("pop", "update", "clear", "popitem", "setdefault"):
                 a0 = x.args[0] if x.args else None
                 if x.func.attr in ("pop", "setdefault") and a0 is not None:
